@@ -63,6 +63,7 @@ def normalise (u : User) : User :=
 
 inductive TokRes where
   | ok (u : User)
+  | err (msg : Bytes)
   | panic
   | unmod
 
@@ -70,7 +71,7 @@ inductive TokRes where
 def updateTok (u : User) (str : Bytes) : TokRes :=
   if !isAscii str then .unmod else
   match str with
-  | [] => .panic                                  -- str[0] on an empty token
+  | [] => .panic                                  -- str[0] on an empty token (UpdateUser refuses one before the loop)
   | c0 :: rest =>
     let u := if eqFold str (b "on") then { u with enabled := true } else u
     let u := if eqFold str (b "off") then { u with enabled := false } else u
@@ -106,6 +107,7 @@ def updateToks : List Bytes → User → TokRes
   | [], u => .ok u
   | t :: r, u => match updateTok u t with
     | .ok u' => updateToks r u'
+    | .err m => .err m
     | .panic => .panic
     | .unmod => .unmod
 
@@ -118,8 +120,11 @@ def updateTail (cmd : List Bytes) (u : User) : User :=
     let u := if s == b "resetkeys" || s == b "nokeys" then { u with readKeys := [], writeKeys := [], noKeys := true } else u
     if eqFold s (b "resetchannels") then { u with inclChans := [], exclChans := [star] } else u) u
 
-/-- user.go:121 UpdateUser -/
+def emptyRuleMsg : Bytes := b "the username and the rules of ACL SETUSER must not be empty"
+
+/-- user.go:121 UpdateUser: an empty user name or rule is refused before anything is modified -/
 def updateUser (cmd : List Bytes) (u : User) : TokRes :=
+  if cmd.contains [] then .err emptyRuleMsg else
   match updateToks cmd u with
   | .ok u' => .ok (updateTail cmd u')
   | r => r
@@ -156,7 +161,7 @@ inductive AclOut where
   | unmod
 deriving DecidableEq, Repr
 
-/-- acl.go:158 SetUser -/
+/-- acl.go:158 SetUser (handleSetUser, commands.go:224, refuses a command without a user name before the call) -/
 def setUser (a : AclState) (cmd : List Bytes) : AclState × AclOut :=
   match cmd with
   | [] => (a, .panic)                                            -- cmd[0]
@@ -165,6 +170,7 @@ def setUser (a : AclState) (cmd : List Bytes) : AclState × AclOut :=
     | some uid =>
       (match updateUser cmd (a.get uid) with
        | .ok u => ({ a with heap := a.heap.put uid u }, .ok)
+       | .err m => (a, .err m)
        | .panic => (a, .panic)
        | .unmod => (a, .unmod))
     | none =>
@@ -172,6 +178,7 @@ def setUser (a : AclState) (cmd : List Bytes) : AclState × AclOut :=
       | .ok u =>
         let uid := a.fresh
         ({ a with heap := a.heap.put uid (normalise u), order := a.order ++ [uid] }, .ok)
+      | .err m => (a, .err m)
       | .panic => (a, .panic)
       | .unmod => (a, .unmod)
 
@@ -210,7 +217,7 @@ def authenticate (a : AclState) (cid : Nat) (cmd : List Bytes) (sha : Bytes) : A
 
 /-- why AuthorizeConnection refused -/
 inductive Deny where
-  | unauthenticated | categories | command | channel | noKeys | readKeys | writeKeys
+  | unauthenticated | disabled | categories | command | channel | noKeys | readKeys | writeKeys
 deriving DecidableEq, Repr
 
 structure CmdMeta where
@@ -238,12 +245,12 @@ def cmdExcluded (u : User) (m : CmdMeta) : Bool := u.exclCmds.any fun c => c == 
 /-- step 6 (:398-415) -/
 def chanDenied (gmatch : Bytes → Bytes → Bool) (u : User) (m : CmdMeta) : Bool :=
   m.channels.any fun ch => !(u.inclChans.any fun g => gmatch g ch) || (u.exclChans.any fun g => gmatch g ch)
-/-- step 8 (:423-438): denied only when NO read key matches and a pattern was tried -/
+/-- step 8 (acl.go:428-438): denied when some read key matches no read pattern -/
 def readDenied (gmatch : Bytes → Bytes → Bool) (u : User) (m : CmdMeta) : Bool :=
-  !m.readKeys.isEmpty && !(m.readKeys.any fun k => u.readKeys.any fun g => gmatch g k) && !u.readKeys.isEmpty
-/-- step 9 (:440-453): denied only when NO write key matches -/
+  m.readKeys.any fun k => !(u.readKeys.any fun g => gmatch g k)
+/-- step 9 (acl.go:440-450): denied when some write key matches no write pattern -/
 def writeDenied (gmatch : Bytes → Bytes → Bool) (u : User) (m : CmdMeta) : Bool :=
-  !m.writeKeys.isEmpty && !(m.writeKeys.any fun k => u.writeKeys.any fun g => gmatch g k)
+  m.writeKeys.any fun k => !(u.writeKeys.any fun g => gmatch g k)
 
 /-- acl.go:297 AuthorizeConnection after key extraction. `none` = allowed. -/
 def authorize (gmatch : Bytes → Bytes → Bool) (requirePass : Bool) (authenticated : Bool) (u : User)
@@ -251,6 +258,7 @@ def authorize (gmatch : Bytes → Bytes → Bool) (requirePass : Bool) (authenti
   if codeExempt m.comm then none else
   if !requirePass then none else
   if !authenticated then some .unauthenticated else
+  if !u.enabled then some .disabled else                           -- acl.go:351-354
   if !catsIncluded u m then some .categories else
   if catsExcluded u m then some .categories else
   if !cmdIncluded u m then some .command else
